@@ -358,10 +358,20 @@ func (bs *baseServer) Handshake(transportName string, ctx *types.HttpContext) (*
 	bs.clients.Store(id, socket)
 	bs.clientsCount.Add(1)
 
+	unregister := func() {
+		if _, registered := bs.clients.LoadAndDelete(id); registered {
+			bs.clientsCount.Add(^uint64(0))
+		}
+	}
 	socket.Once("close", func(...any) {
-		bs.clients.Delete(id)
-		bs.clientsCount.Add(^uint64(0))
+		unregister()
 	})
+	// the connection can be lost while the session is being set up, before the
+	// listener above existed: such a session is neither kept nor announced
+	if socket.ReadyState() == "closed" {
+		unregister()
+		return nil, transport
+	}
 
 	bs.Emit("connection", socket)
 
